@@ -80,16 +80,16 @@ var (
 
 		// mm/dd/yy
 		"DD/MM/YYYY HH:mm:ss.SSS",
+		"D/M/YYYY hh:mm:ss P",
 		"DD/MM/YYYY HH:mm:ss",
 		"D/MM/YYYY HH:mm:ss",
 		"DD/M/YYYY HH:mm:ss",
 		"D/M/YYYY HH:mm:ss",
-		"D/M/YYYY hh:mm:ss P",
+		"D/M/YYYY hh:mm P",
+		"D/M/YYYY h:mm P",
 		"DD/MM/YYYY HH:mm",
 		"D/M/YYYY HH:mm",
 		"D/M/YY HH:mm",
-		"D/M/YYYY hh:mm P",
-		"D/M/YYYY h:mm P",
 		"DD/MMM/YYYY:HH:mm:ss ZZZZ",
 		"DD/MM/YYYY",
 		"D/MM/YYYY",
@@ -204,7 +204,8 @@ func NewParser(fmts ...string) *parser {
 		noDate := !strings.ContainsAny(fmtStr, "YMD")
 		hasYear := !noDate && strings.Contains(fmtStr, "Y")
 		hasLocation := strings.Contains(fmtStr, "Z")
-		dRegexp := regexp.MustCompile(fmt.Sprintf("(?P<%v>%v)", dateGroup, regexpMap(fmtStr)))
+		// a date must not start in the middle of a digit run ("2019/03/11" is not "19/03/11")
+		dRegexp := regexp.MustCompile(fmt.Sprintf("(?:^|[^0-9])(?P<%v>%v)", dateGroup, regexpMap(fmtStr)))
 
 		grps := dRegexp.SubexpNames()
 		if len(grps) < 2 || grps[1] != dateGroup { // grps[0] is a whole line
